@@ -77,6 +77,12 @@ func HarnessC13Locks() {
 	s2.onlyOK = true
 	before := len(s.cmds) + s.closeCalls
 	c.dialContextFunc = hxDialFunc(s2)
+	if svParam("routes", 1) > 1 && svPick("dial-and-send-route", 2) == 1 {
+		// the configured port is closed, the fallback port answers
+		c.SetTLSPortPolicy(TLSOpportunistic)
+		s2.refuseDials = 1
+		svReach("fallback-route")
+	}
 	svLogStart(2)
 	err := c.DialAndSend(hxTestMsg(2, 1, 0, EncodingQP))
 	svLogStop()
@@ -99,5 +105,11 @@ func HarnessC13Locks() {
 	}
 	if r := svRaceReport(2, 2); r != "" {
 		svAssert(false, "C13 unsynchronised access in DialAndSend || DialAndSend to "+r)
+	}
+	// (5) no lock-order deadlock between the concurrent operations
+	for _, pr := range [][2]int{{1, 1}, {1, 2}, {2, 2}} {
+		if r := svLockOrderReport(pr[0], pr[1]); r != "" {
+			svAssert(false, "C13 deadlock between "+[]string{"", "Send", "DialAndSend"}[pr[0]]+" and "+[]string{"", "Send", "DialAndSend"}[pr[1]]+": "+r)
+		}
 	}
 }
